@@ -26,34 +26,37 @@ Definition single_char (p : lpat) : option (ascii -> bool) :=
 Fixpoint run_len (f : ascii -> bool) (s : string) : nat :=
   match s with String c r => if f c then S (run_len f r) else 0 | EmptyString => 0 end.
 
-(* all lengths n such that the first n characters of s match p *)
-Fixpoint mlens (fuel : nat) (p : lpat) (s : string) {struct fuel} : list nat :=
-  match fuel with
-  | 0 => []
-  | S f =>
-      match p with
-      | LLit l => if String.prefix l s then [String.length l] else []
-      | LSet neg rs => match s with String c _ => if xorb neg (in_ranges c rs) then [1] else [] | EmptyString => [] end
-      | LAny => match s with String _ _ => [1] | EmptyString => [] end
-      | LSeq ps =>
-          (fix go (ps : list lpat) (s : string) : list nat :=
-             match ps with
-             | [] => [0]
-             | q :: r => nodup_nat (flat_map (fun n => map (Nat.add n) (go r (sdrop n s))) (mlens f q s))
-             end) ps s
-      | LAlt ps => nodup_nat (flat_map (fun q => mlens f q s) ps)
-      | LOpt q => nodup_nat (0 :: mlens f q s)
-      | LStar q =>
-          match single_char q with
-          | Some pr => seq 0 (S (run_len pr s))
-          | None =>
-          nodup_nat (0 :: flat_map (fun n => if Nat.eqb n 0 then [] else map (Nat.add n) (mlens f (LStar q) (sdrop n s))) (mlens f q s))
-          end
-      | LPlus q =>
-          match single_char q with
-          | Some pr => seq 1 (run_len pr s)
-          | None => nodup_nat (flat_map (fun n => map (Nat.add n) (mlens f (LStar q) (sdrop n s))) (mlens f q s))
-          end
+(* zero or more repetitions of a step: all total lengths; k bounds the number of repetitions (S |s| is always enough: every
+   repetition consumes at least one character) *)
+Fixpoint star_loop (step : string -> list nat) (k : nat) (s : string) : list nat :=
+  match k with
+  | 0 => [0]
+  | S k' => nodup_nat (0 :: flat_map (fun n => if Nat.eqb n 0 then [] else map (Nat.add n) (star_loop step k' (sdrop n s))) (step s))
+  end.
+
+(* all lengths n such that the first n characters of s match p (with repetitions; max / min are taken by the caller) *)
+Fixpoint mlens (p : lpat) (s : string) {struct p} : list nat :=
+  match p with
+  | LLit l => if String.prefix l s then [String.length l] else []
+  | LSet neg rs => match s with String c _ => if xorb neg (in_ranges c rs) then [1] else [] | EmptyString => [] end
+  | LAny => match s with String _ _ => [1] | EmptyString => [] end
+  | LSeq ps =>
+      (fix go (ps : list lpat) (s : string) : list nat :=
+         match ps with
+         | [] => [0]
+         | q :: r => nodup_nat (flat_map (fun n => map (Nat.add n) (go r (sdrop n s))) (mlens q s))
+         end) ps s
+  | LAlt ps => (fix alt (ps : list lpat) : list nat := match ps with [] => [] | q :: r => mlens q s ++ alt r end) ps
+  | LOpt q => 0 :: mlens q s
+  | LStar q =>
+      match single_char q with
+      | Some pr => seq 0 (S (run_len pr s))
+      | None => nodup_nat (star_loop (mlens q) (S (String.length s)) s)
+      end
+  | LPlus q =>
+      match single_char q with
+      | Some pr => seq 1 (run_len pr s)
+      | None => nodup_nat (flat_map (fun n => map (Nat.add n) (star_loop (mlens q) (S (String.length s)) (sdrop n s))) (mlens q s))
       end
   end.
 
@@ -62,17 +65,17 @@ Definition min_pos (l : list nat) : nat :=     (* smallest non-zero element, 0 w
   fold_right (fun n acc => if Nat.eqb n 0 then acc else if Nat.eqb acc 0 then n else Nat.min n acc) 0 l.
 
 (* the match length of one token rule at the head of s (0 = no match) *)
-Definition rule_len (fuel : nat) (r : bool * bool * lpat) (s : string) : nat :=
+Definition rule_len (r : bool * bool * lpat) (s : string) : nat :=
   let '(_, lazy, p) := r in
-  let ls := mlens fuel p s in if lazy then min_pos ls else max_list ls.
+  let ls := mlens p s in if lazy then min_pos ls else max_list ls.
 
 (* winner: longest, first rule on ties *)
-Fixpoint best_rule (fuel : nat) (rules : list (string * (bool * bool * lpat))) (s : string) : option (string * bool * nat) :=
+Fixpoint best_rule (rules : list (string * (bool * bool * lpat))) (s : string) : option (string * bool * nat) :=
   match rules with
   | [] => None
   | (name, r) :: rest =>
-      let n := rule_len fuel r s in
-      match best_rule fuel rest s with
+      let n := rule_len r s in
+      match best_rule rest s with
       | Some (name', skip', n') => if Nat.ltb n n' then Some (name', skip', n') else if Nat.eqb n 0 then Some (name', skip', n') else Some (name, fst (fst r), n)
       | None => if Nat.eqb n 0 then None else Some (name, fst (fst r), n)
       end
@@ -90,24 +93,24 @@ Fixpoint advance (t : string) (line col : nat) : nat * nat :=
 Inductive lexeme := LexTok (t : token) | LexSkip (text : string) | LexErr (c : ascii).
 
 (* one step per lexeme; steps = an upper bound on the number of lexemes (the input length suffices, see lex_all_total) *)
-Fixpoint lex_from (steps mfuel : nat) (rules : list (string * (bool * bool * lpat))) (s : string) (line col : nat) : option (list lexeme) :=
+Fixpoint lex_from (steps : nat) (rules : list (string * (bool * bool * lpat))) (s : string) (line col : nat) : option (list lexeme) :=
   match s with
   | EmptyString => Some []
   | String c rest =>
       match steps with
       | 0 => None
       | S k =>
-          match best_rule mfuel rules s with
+          match best_rule rules s with
           | Some (name, skip, n) =>
               let text := stake n s in
               let '(l2, c2) := advance text line col in
-              match lex_from k mfuel rules (sdrop n s) l2 c2 with
+              match lex_from k rules (sdrop n s) l2 c2 with
               | Some r => Some ((if skip then LexSkip text else LexTok (mktok name text line col)) :: r)
               | None => None
               end
           | None =>
               let '(l2, c2) := advance (String c "") line col in
-              match lex_from k mfuel rules rest l2 c2 with
+              match lex_from k rules rest l2 c2 with
               | Some r => Some (LexErr c :: r)
               | None => None
               end
@@ -119,7 +122,7 @@ Definition lexeme_text (x : lexeme) : string :=
   match x with LexTok t => tk_text t | LexSkip t => t | LexErr c => String c "" end.
 
 Definition lex_all (rules : list (string * (bool * bool * lpat))) (s : string) : option (list lexeme) :=
-  lex_from (String.length s) (2 * String.length s + 8) rules s 1 0.
+  lex_from (String.length s) rules s 1 0.
 
 Definition tokens_of (ls : list lexeme) : list token :=
   flat_map (fun x => match x with LexTok t => [t] | _ => [] end) ls.
